@@ -77,6 +77,10 @@ def parse_key(E, s: str):
         return ("fld", owner, attr, t)
     if kind == "alloc":
         return ("alloc",)
+    if kind == "dv":
+        k, v = rest.split(":")
+        conv = lambda n: ty.INT if n == "int" else ty.REAL if n == "real" else ty.STR if n == "str" else ty.Enum(n) if n in E.prog.enums else ty.Ref(n)
+        return ("dv", conv(k), conv(v))
     raise CheckerError(f"star(): unsupported key {s}")
 
 
@@ -264,7 +268,7 @@ def verify_function(E: Engine, q: str) -> dict:
         g = E.sev_bool(expr, st.copy(), pre_frame)
         E.obligations.append(__import__("pyvc.engine", fromlist=["Obligation"]).Obligation(
             f"{short(q)}:cover:{label}", list(st.pc), g, "cover", q, expr, "sat"))
-    if c.yields:
+    if c.gen:
         from .coroutine import verify_generator
         return verify_generator(E, q, c, fn, fr, st, old)
     outs = E.ex_block(fn.body, st, fr)
